@@ -23,3 +23,25 @@ def run(prog, chk):
     R.handle_rule_of_three(prog, chk, "C09.f")
     R.clone_into_fresh(prog, chk, "C09.g")
     R.exclusive_guard(prog, chk, "C09.h")
+    # (h) for every String member, not just detach/clear: no in-place write to the text block of a possibly shared payload
+    from . import c06
+
+    class Only:
+        """forwards the events of one rule of another property's module under a new rule id"""
+        def __init__(self, chk, src, dst):
+            self.chk, self.src, self.dst = chk, src, dst
+            self.extra, self.assumptions = {}, []
+        def rule(self, rid, text, floor=1):
+            if rid == self.src:
+                self.chk.rule(self.dst, text, floor)
+        def ok(self, rid, *a, **k):
+            if rid == self.src:
+                self.chk.ok(self.dst, *a, **k)
+        def bad(self, rid, *a, **k):
+            if rid == self.src:
+                self.chk.bad(self.dst, *a, **k)
+        def note(self, t):
+            pass
+        def broke(self, t):
+            self.chk.broke(t)
+    c06.run(prog, Only(chk, "C06.a", "C09.i"))
